@@ -101,6 +101,8 @@ enum Op {
     ReadText,
     Into(usize),
     Async(usize, Option<usize>),
+    /// read_to_end_into over pieces of the given size with a fault at the given refill call: Interrupted (false) / hard error (true)
+    IntoFault(usize, usize, bool),
 }
 
 struct Out {
@@ -172,8 +174,16 @@ fn run_op(input: &[u8], cfg: u8, start_end: u64, name: u8, op: Op) -> Result<Out
                 out.cfg_after = cfg_bits(reader.config());
                 rest!(reader, Some(reader.read_event()));
             }
-            Op::Into(piece) => {
-                let script = Script::pieces(piece);
+            Op::Into(_) | Op::IntoFault(..) => {
+                let script = match op {
+                    Op::Into(piece) => Script::pieces(piece),
+                    Op::IntoFault(piece, at, hard) => {
+                        let mut s = Script::pieces(piece);
+                        s.faults.push((at, if hard { Fault::Hard(std::io::ErrorKind::Other) } else { Fault::Interrupted }));
+                        s
+                    }
+                    _ => unreachable!(),
+                };
                 let mut reader = Reader::from_reader(Source::new(input, &script));
                 apply_cfg(reader.config_mut(), cfg);
                 let mut buf = Vec::new();
@@ -258,6 +268,15 @@ fn check(doc: &Doc, input: &[u8], cfg: u8, i: usize, op: Op, exp: &Expect, unint
     if out.cfg_after != out.cfg_before || out.cfg_before != cfg {
         return Err(format!("configuration changed by the call: before [{}], after [{}]", cfg_show(out.cfg_before), cfg_show(out.cfg_after)));
     }
+    if let Op::IntoFault(_, _, true) = op {
+        // a hard I/O error may hit the skip itself (=> Err, configuration restored: checked above) or
+        // a later read (=> the skip is unaffected); the events after an I/O error are not compared
+        return match (&out.result, exp.span) {
+            (Ok(got), Some(want)) if *got != want => Err(format!("returned span {}..{}, expected {}..{}", got.0, got.1, want.0, want.1)),
+            (Ok(got), None) => Err(format!("returned span {}..{} although the element is not closed in the input", got.0, got.1)),
+            _ => Ok(true),
+        };
+    }
     match (&out.result, exp.span) {
         (Ok(got), Some(want)) => {
             if *got != want {
@@ -307,7 +326,7 @@ pub fn run(ctx: &Ctx) {
          well-formed by the token-level tag stack, plus every truncation of it at every byte; for EVERY start tag (and every empty \
          tag when expansion is on) the reader is advanced to that Start event, then each of read_to_end, read_text (slice), \
          read_to_end_into (piece sizes 1, 2, whole), read_to_end_into_async (piece sizes 1, whole; thorough: every placement of one \
-         Pending) is called, under the 16 combinations of trim_text_start x trim_text_end x expand_empty_elements x \
+         Pending) is called, and read_to_end_into with an Interrupted / a hard I/O error at every refill index of the complete documents, under the 16 combinations of trim_text_start x trim_text_end x expand_empty_elements x \
          trim_markup_names_in_closing_tags. Oracle from the token structure: span == (end of start tag, '<' of the matching end tag) \
          (empty for an expanded empty element); read_text == input[span]; all following events and positions equal those of an \
          uninterrupted run after that end tag; Config identical before and after, on success and on error; unclosed => Err. \
@@ -382,6 +401,17 @@ pub fn run(ctx: &Ctx) {
                                 ops.push(Op::Async(1, Some(p)));
                             }
                         }
+                        // I/O faults during the skip: Interrupted must be invisible, a hard error must leave the configuration restored
+                        if len == n && (c == 0 || c == 15 || pend) {
+                            for p in 0..(n + 3) {
+                                ops.push(Op::IntoFault(1, p, false));
+                                ops.push(Op::IntoFault(1, p, true));
+                                if pend {
+                                    ops.push(Op::IntoFault(2, p, false));
+                                    ops.push(Op::IntoFault(2, p, true));
+                                }
+                            }
+                        }
                         for op in ops {
                             acc.evaluations += 1;
                             acc.transitions += 1;
@@ -419,6 +449,8 @@ fn parse_op(s: &str) -> Op {
         Op::ReadToEnd
     } else if s.starts_with("ReadText") {
         Op::ReadText
+    } else if s.starts_with("IntoFault") {
+        Op::IntoFault(nums[0], nums[1], s.contains("true"))
     } else if s.starts_with("Into") {
         Op::Into(nums[0])
     } else {
